@@ -212,6 +212,8 @@ impl Harness for Scalars {
 
 #[derive(Clone, Copy, Debug, PartialEq)]
 pub enum EucKind {
+    /// Poly<'x', Q>: a = q b + r with r = 0 or deg r < deg b; gcd monic-normalised and symmetric (degrees given by (da, db))
+    PolyQ(usize, usize),
     IntDivRound,
     IntGcd,
     QuadDivRem(i32),
@@ -316,6 +318,7 @@ impl Harness for Euclid {
     }
     fn functions(&self) -> Vec<&'static str> {
         match self.kind {
+            EucKind::PolyQ(..) => vec!["Poly<'x', Ratio<_>>::{div_rem,div,rem}", "EucRing::{gcd,gcdx} (generic) over Q[x]", "PolyBase::{normalizing_unit,lead_coeff,lead_deg}"],
             EucKind::IntDivRound => vec!["<T: Integer as DivRound>::div_round (generic, exact)"],
             EucKind::IntGcd => vec!["EucRing::{gcd,gcdx,lcm,divides} (generic defaults of euc_ring.rs) over the symbolic integer", "Ring::{normalized,into_normalized}"],
             EucKind::QuadDivRem(_) => vec!["GaussInt/EisenInt::{div_round,div,rem}", "QuadInt::{mul,conj,norm}", "DivRound for Integer"],
@@ -326,6 +329,7 @@ impl Harness for Euclid {
     fn inputs(&self) -> Vec<InputSpec> {
         let n = match self.kind {
             EucKind::IntDivRound | EucKind::IntGcd | EucKind::QuadUnits(_) => 2,
+            EucKind::PolyQ(da, db) => da + db + 2,
             _ => 4,
         };
         (0..n).map(|i| InputSpec::boxed(&format!("x{}", i), self.b)).collect()
@@ -337,6 +341,8 @@ impl Harness for Euclid {
         match self.kind {
             EucKind::IntDivRound => I::assume(VF::nonzero(xs[1].clone())),
             EucKind::QuadDivRem(_) => I::assume(VF::Or(vec![VF::nonzero(xs[2].clone()), VF::nonzero(xs[3].clone())])),
+            // the divisor has exact degree db: its leading coefficient is non-zero
+            EucKind::PolyQ(da, db) => I::assume(VF::nonzero(xs[da + 1 + db].clone())),
             _ => {}
         }
     }
@@ -345,6 +351,29 @@ impl Harness for Euclid {
         for<'x> &'x I: VIntOps<I>,
     {
         match self.kind {
+            EucKind::PolyQ(da, db) => {
+                type P<I> = Poly<'x', Ratio<I>>;
+                let mk = |cs: &[I]| -> P<I> { cs.iter().enumerate().map(|(e, c)| (P::<I>::mono(e), Ratio::from(c.clone()))).collect() };
+                let (a, b) = (mk(&xs[..da + 1]), mk(&xs[da + 1..]));
+                let (q, r) = a.div_rem(&b);
+                let back = &(&q * &b) + &r;
+                for e in 0..=(da + db + 2) {
+                    let d = back.coeff(&P::<I>::mono(e)) - a.coeff(&P::<I>::mono(e));
+                    I::oblige(&format!("a = q b + r (coefficient of x^{})", e), VF::zero(d.numer().clone()));
+                }
+                I::oblige("remainder zero or of smaller degree", VF::of_bool(r.is_zero() || r.lead_deg() < b.lead_deg()));
+                let (q2, r2) = (&a / &b, &a % &b);
+                I::oblige("operators agree with div_rem", VF::of_bool(q2 == q && r2 == r));
+                // gcd: symmetric, monic (normalised), divides both
+                let g = P::<I>::gcd(&a, &b);
+                let g2 = P::<I>::gcd(&b, &a);
+                I::oblige("gcd independent of the argument order", VF::of_bool(g == g2));
+                if !g.is_zero() {
+                    I::oblige("gcd is monic", VF::of_bool(g.lead_coeff().is_one()));
+                    I::oblige("gcd | a", VF::of_bool((&a % &g).is_zero()));
+                    I::oblige("gcd | b", VF::of_bool((&b % &g).is_zero()));
+                }
+            }
             EucKind::IntDivRound => {
                 let (a, b) = (&xs[0], &xs[1]);
                 let q = a.div_round(b);
@@ -675,6 +704,9 @@ pub fn configs_c15(tier: crate::registry::Tier, _seed: u64) -> Vec<crate::regist
     let th = tier == Tier::Thorough;
     let mut v = Vec::new();
     v.push(entry(Euclid { kind: EucKind::IntDivRound, b: 1_000_000 }, 500, 120.0));
+    v.push(entry(Euclid { kind: EucKind::PolyQ(2, 1), b: 2 }, 1500, 120.0));
+    v.push(entry(Euclid { kind: EucKind::PolyQ(1, 1), b: 3 }, 1500, 90.0));
+    v.push(entry(Euclid { kind: EucKind::PolyQ(2, 2), b: 1 }, 1500, 120.0));
     v.push(entry(Euclid { kind: EucKind::IntGcd, b: if th { 30 } else { 12 } }, if th { 20000 } else { 2000 }, if th { 3000.0 } else { 240.0 }));
     for d in [-1, -3] {
         v.push(entry(Euclid { kind: EucKind::QuadDivRem(d), b: if th { 6 } else { 3 } }, if th { 20000 } else { 1500 }, if th { 3000.0 } else { 240.0 }));
